@@ -42,15 +42,26 @@ class Check(HCheck):
             al.rule(Ax, "path2"),
             al.create(al.SH),  # a one-stem prefix: its node is the very first block of the trie
             al.create(S),  # a webentity that exists under the other scheme only
-            # an ancestor with a multi-block stem that exists (unmarked) before a prefix is attached below it
+        ]
+        # a space of its own (small alphabet, same depth):
+        # an ancestor with a multi-block stem that exists (unmarked) before a prefix is attached
+        # below it; a newline byte inside a prefix stem, and a prefix running through the stem
+        # that follows it
+        lops = [
+            al.create(C1),
+            al.create(A),
             al.page(LA + b"p:k|"),
             al.create(LA + b"p:k|"),
+            al.create(LA),
             al.addprefix(LA + b"p:k|p:m|", 0),
-            # a newline byte inside a prefix stem, and a prefix running through the stem that follows it
             al.create(A + b"p:a\nb|"),
             al.create(A + b"b|p:deep|"),
+            al.rmprefix(LA),
+            al.delete(0),
+            al.move(LA + b"p:k|", 0),
         ]
         sp = [Space(Cfg("never"), ops, 5 if thorough else 4, roots=[al.R0, (al.page(Axy), al.page(Awx), al.page(A + b"p:x|p:y|p:z|"))], name="hier/never")]
+        sp.append(Space(Cfg("never"), lops, 5 if thorough else 4, name="hier/long-stems+newline"))
         ops2 = [
             al.page(Axy),
             al.page(Awx),
